@@ -28,6 +28,7 @@ package main
 
 import (
 	"encoding/json"
+	"flag"
 	"fmt"
 	"os"
 	"runtime"
@@ -58,6 +59,13 @@ type c18Input struct {
 	CD    int   `json:"cd"`    // consumer: max pause in microseconds (0 = none)
 	DSeed int64 `json:"dseed"` // seed of the pauses
 	Pend  bool  `json:"pend"`  // consumer stops early: Stop with items outstanding
+	// slice-queue cases (slice.go): which real loop is driven
+	Q      string `json:"q,omitempty"`       // "" = ConcurrentQueue | btcd | neutrino
+	B0     int    `json:"b0,omitempty"`      // best-block height the backend reports at start
+	StopAt int    `json:"stop_at,omitempty"` // concurrent mode: the producer calls Stop after this many sends
+	// wallet notification server cases (ntfn.go), q = "ntfn"
+	Clients int `json:"clients,omitempty"` // registered TransactionNotifications clients (1 or 2)
+	CD2     int `json:"cd2,omitempty"`     // second client: max pause in microseconds
 }
 
 type c18Obs struct {
@@ -71,6 +79,12 @@ type c18Obs struct {
 	Probed      bool   `json:"extra_item_probe_done"`
 	PostStop    int    `json:"drained_after_stop"`
 	MaxSendUs   int64  `json:"max_send_us"`
+	// slice-queue cases only
+	BSFail   bool   `json:"blockstamp_failed,omitempty"`
+	Panic    string `json:"worker_panic,omitempty"`
+	StartErr string `json:"start_error,omitempty"`
+	// notification-server cases: hand-overs completed while nobody was reading
+	NoConsumerDone *int `json:"completed_without_consumer,omitempty"`
 }
 
 type c18Case struct {
@@ -479,8 +493,27 @@ func c18GenPlan(r *gen.R, cap int) string {
 }
 
 func main() {
-	core.Main("c18", nil, func(c *core.Common, out *core.Emitter) error {
+	child := false
+	core.Main("c18", func(fs *flag.FlagSet) {
+		fs.BoolVar(&child, "slice-child", false, "internal: run slice-queue inputs read from stdin")
+	}, func(c *core.Common, out *core.Emitter) error {
+		if child {
+			return sqChildMain()
+		}
 		timeouts := 0
+		emitSlice := func(extra string) func(in c18Input, obs c18Obs, idx int) {
+			return func(in c18Input, obs c18Obs, idx int) {
+				if obs.Blocked || obs.RecvTimeout || obs.Leak {
+					timeouts++
+				}
+				if in.Q == "ntfn" {
+					out.Emit(c18Case{In: in, Obs: obs, Oracle: ntfnOracle(obs),
+						Tags: ntfnTags(in, obs, idx, extra), Site: "wallet/notifications.go"})
+					return
+				}
+				out.Emit(sqCase(in, obs, extra))
+			}
+		}
 		runOne := func(in c18Input, extra ...string) {
 			obs := c18Run(in)
 			if obs.Blocked || obs.RecvTimeout || obs.Leak {
@@ -496,6 +529,9 @@ func main() {
 				}
 				if err := json.Unmarshal(raw, &cs); err != nil {
 					return err
+				}
+				if cs.In.Q != "" {
+					return sqRunAll([]c18Input{cs.In}, emitSlice("replay"))
 				}
 				runOne(cs.In, "replay")
 				return nil
@@ -548,7 +584,19 @@ func main() {
 		}
 		if timeouts >= 4 {
 			fmt.Fprintln(os.Stderr, "c18: stopping early after 4 cases with timeouts")
+			return nil
 		}
-		return nil
+		// The inline slice queues of the btcd and neutrino backends (slice.go).
+		if err := sqRunAll(sqSystematic(), emitSlice("systematic")); err != nil {
+			return err
+		}
+		if err := sqRunAll(sqRandom(gen.New(c.Seed, 1818), c.N/2), emitSlice("random")); err != nil {
+			return err
+		}
+		// The wallet's notification server (ntfn.go): a rendezvous, not a queue.
+		if err := sqRunAll(ntfnSystematic(), emitSlice("systematic")); err != nil {
+			return err
+		}
+		return sqRunAll(ntfnRandom(gen.New(c.Seed, 1819), c.N/15), emitSlice("random"))
 	})
 }
